@@ -55,19 +55,23 @@ PROPS = {
     ),
     'C14': dict(
         level='proof',
-        contracts=['C14', 'C03'],
+        contracts=['C14', 'C03', 'headerlist'],
         frames=['codec_lemma'],
         technique='deductive: VCs from the real AST of _hval, HeaderDict.__setitem__/append/setdefault, HeaderProperty.__set__, '
-                  'BaseResponse.__init__ (data-structure invariant Clean(dict)); complete per-code-point enumeration of the emission '
-                  'transcoding; bounded run-time contract check of headerlist',
+                  'BaseResponse.__init__ (data-structure invariant Clean(dict)) and of BaseResponse.headerlist (comprehensions executed on a '
+                  'generic element: filter, inner iterable and emitted pair compared pointwise with the specification; cookie loop with '
+                  'invariant); complete per-code-point enumeration of the emission transcoding; bounded run-time contract check as replay harness',
         explanation='_hval accepts exactly None/str/int/float/bool, rejects CR/LF/NUL, returns str(value); every single-value '
                     'setter stores only _hval results (Clean(dict) preserved for all arguments); callers reach the dictionary only '
-                    'through the guarded setters; the UTF-8->Latin-1 transcoding of headerlist is wire-safe and invertible for every code point.',
+                    'through the guarded setters; headerlist emits, for every stored entry not forbidden for the status (by title()), one pair per stored '
+                    'value in order with the value transcoded UTF-8->Latin-1, then at most the default Content-Type (never when a blacklist is '
+                    'active), then one Set-Cookie per cookie; the transcoding is wire-safe and invertible for every code point.',
         level_text='Proof that a value with CR/LF/NUL is rejected by every single-value setter and never stored (all values, all types); '
-                   'complete enumeration for the codec clause. That headerlist emits exactly the stored values (order, multi-values, '
-                   '204/304 blacklist) is decided by the bounded contract check only.',
+                   'complete enumeration for the codec clause; proof that headerlist emits exactly the stored values (once per value, in order, '
+                   'transcoded, forbidden names withheld) relative to the stated semantics of comprehensions and of str.title().',
         level_note='Assumes str(int)/str(float) are control-character free, codecs are concatenation homomorphisms; a list offered to '
-                   'setdefault is stored unguarded (outside the statement: single-value setters). headerlist clause: bounded.',
+                   'setdefault is stored unguarded (outside the statement: single-value setters). The order in which Python comprehensions '
+                   'yield their elements is assumed; SimpleCookie.OutputString is library code.',
         trusted_base=['Clean(dict) holds on entry of every setter (re-established by every contracted writer)'],
     ),
     'C15': dict(
@@ -136,14 +140,15 @@ PROPS = {
         contracts=['C02'],
         frames=[],
         technique='deductive: VCs from the real AST of Ombott.to_route, PropsMixin.method, Route.__getitem__, RadiRouter.resolve and '
-                  'Ombott.handler (modular on the lookup contract of RadiDict.get); bounded exhaustive method-table check as replay harness',
+                  'Ombott.handler (modular on the lookup contract of RadiDict.get) and of the Route method-table mutators; bounded exhaustive method-table check as replay harness',
         explanation='candidates are [verb, GET if HEAD, ANY] in that order; the first registered candidate wins, RouteMethodError iff none; '
                     'resolve answers 404 iff the lookup found no route, the endpoint iff a candidate is registered, else 405 whose third '
                     'field is ",".join(sorted(route.methods)); handler raises HTTPError(405, Allow=that string) / HTTPError(404); the '
                     'request method is upper-cased.',
         level_text='Proof of the dispatch order, the 404/405 split and the Allow value for all verbs and method tables, relative to the '
-                   'lookup contract of the radix tree (which is C01 and bounded). The method-table mutators (add/overwrite/remove) and '
-                   'the registration-side upper-casing are decided by the bounded check only.',
+                   'lookup contract of the radix tree (which is C01 and bounded). The method-table mutators of Route (set_method, _set_methods, add_method, '
+                   '_raise_if_registered, remove_method) are under contract too (exact effect on the table, refusal before any write); the '
+                   'registration-side upper-casing in RadiRouter.add and the app-level wrappers are decided by the bounded check only.',
         level_note='Assumes RadiDict.get returns a falsy route iff no rule matches (C01, bounded); sorted/join uninterpreted; '
                    'Route.__getitem__ checked for candidate lists of length 1..3 (complete for the callers).',
         trusted_base=['lookup contract of RadiDict.get (C01, bounded)'],
@@ -195,8 +200,13 @@ PROPS = {
         level='other', contracts=['C14', 'C03', 'C12', 'wsgi'], frames=['confinement'],
         technique='bounded run-time contract check of request histories against a fresh application + weak-reference retention count; '
                   'VC on BaseResponse.__init__ (reset completeness)',
-        explanation='BOUNDED histories; reset completeness of the response object proved (BaseResponse.__init__).',
-        level_text='Bounded contract check of histories (never counted as proved) plus a proved reset obligation.',
+        explanation='BOUNDED histories (equality with a fresh application, self-consistency of each response, no identifier of an earlier request '
+                    'in a later response, retention count). PROVED per function: BaseResponse.__init__ resets every listed slot; _handle re-initialises '
+                    'request and response before anything else on every path; apply copies by value and aliases nothing; _raise re-raises the shared '
+                    'error object with a clean traceback. Frame analysis: no request-path write reaches a long-lived object.',
+        level_text='Bounded contract check of histories (never counted as proved) plus proved reset / no-aliasing / clean-traceback obligations and a '
+                   'discharged (name-based, flow-insensitive) confinement analysis of every request-path write site; the statement itself is a '
+                   'whole-history property and stays at level `other`.',
         level_note='History length and request kinds are stated in coverage.bounded.bound.',
     ),
     'C10': dict(
@@ -219,7 +229,7 @@ PROPS = {
         level='other', contracts=[], frames=[],
         technique='bounded model-based contract check: every edit history up to a depth bound (state-merged) compared with a freshly '
                   'built router on all probe paths, name/rule lookups and fired hooks',
-        explanation='BOUNDED edit histories over six rule universes; see coverage.bounded.',
+        explanation='BOUNDED edit histories over seven rule universes (incl. literal children directly after a filtered wildcard); see coverage.bounded.',
         level_text='Bounded contract check (never counted as proved): the radix tree rewrites nested lists in place (slice assignment), '
                    'which the VC generator does not model.',
         level_note='Depth bound and universes are stated in coverage.bounded.bound.',
@@ -229,7 +239,9 @@ PROPS = {
         technique='bounded run-time contract check: RadiRouter.resolve / Ombott.__call__ against an independent rule-by-rule spec matcher '
                   'over enumerated rule lists and paths; proved side obligations on RadiRouter.resolve (result assembly)',
         explanation='BOUNDED: ordered rule lists (singletons of a 4641-rule universe, pairs, prefix-sharing families, random lists) x all short '
-                    'paths over an 8-letter alphabet incl. CR; see coverage.bounded. Proved: resolve assembles its result from the lookup result as specified.',
+                    'paths over an 8-letter alphabet incl. CR, lookups interleaved with registration, a renamed-wildcard hook, one removal; see coverage.bounded. '
+                    'Proved: resolve assembles its result from the lookup result as specified (and consults nothing else); make_params_dict returns a '
+                    'fresh dict of exactly the named pairs; the filter handler closures return the converted capture or refuse.',
         level_text='Bounded contract check of the real router (never counted as proved): the radix tree (RadiDict.get/_set/_split/remove) rewrites '
                    'nested lists in place and consults compiled regular expressions; the VC generator does not model that.',
         level_note='Bounds are stated in coverage.bounded.bound. Two known findings (names of a second rule on a shared pattern; int filter digit limit).',
@@ -241,7 +253,8 @@ PROPS = {
         explanation='BOUNDED small-scope exhaustive splits; proved: _body_read hands each part to markup.parse in order; the three post-delimiter '
                     'eaters are pinned down completely (result, exception, state) and the split-after-one-byte lemma holds over their specifications.',
         level_text='Bounded contract check (never counted as proved) for the whole statement; proved: functional contracts + split lemma of the '
-                   'post-delimiter eaters and the feeding obligation of _body_read. match_tail / _eat_data / iter_markup / _eat_headers: bounded only.',
+                   'post-delimiter eaters, match_tail (soundness, completeness, minimality of the reported partial-delimiter position) and the feeding '
+                   'obligation of _body_read. _eat_data / iter_markup / _eat_headers: bounded only.',
         level_note='Bounds are stated in coverage.bounded.bound.',
     ),
     'C07': dict(
@@ -255,10 +268,12 @@ PROPS = {
     'C12': dict(
         level='other', contracts=['C05', 'body_read', 'C18', 'C12', 'fieldstorage', 'body_access', 'C03'], frames=['errors_map_const'],
         technique='bounded run-time contract check of grammar-mutated bodies through Ombott.__call__ (status class, delivered fields complete); '
-                  'proved exception frames of _iter_chunked, _body_read, _raise, _get_body_string, json; termination of the readers and of parse_qsl',
+                  'proved exception frames of _iter_chunked, _body_read, _body, _raise, _get_body_string, json, POST, FieldStorage.read; termination of the readers and of parse_qsl',
         explanation='BOUNDED grammar mutations, truncations, byte mutations, small-scope bodies; proved: _iter_chunked raises only BodyParsingError, '
                     '_body_read only BodySizeError/BodyParsingError, all loops of the chunked reader and of parse_qsl terminate, parse_qsl never raises.',
-        level_text='Bounded contract check (never counted as proved) plus proved exception frames/termination of the readers.',
+        level_text='Bounded contract check (never counted as proved) plus proved exception frames: every failure raised on the way from the stream '
+                   'to request.POST / forms / files / json leaves through _raise with a constant 4xx error object (readers, _body incl. the remembered '
+                   'refusal, _get_body_string, json, POST, FieldStorage.read), and the readers and parse_qsl terminate.',
         level_note='Bounds are stated in coverage.bounded.bound.',
     ),
     'C19': dict(
